@@ -7,19 +7,29 @@ from pathlib import Path
 
 ROOT = Path(__file__).resolve().parent.parent
 sys.path.insert(0, str(ROOT))
+sys.path.insert(1, str(ROOT / '.deps'))
+sys.path.insert(2, '/repo/lint_rules')
 
 props = [json.loads(l) for l in (ROOT / 'properties.jsonl').read_text().splitlines() if l.strip()]
 na_file = ROOT / 'tools' / 'not_applicable.json'
 na_reasons = json.loads(na_file.read_text()) if na_file.exists() else {}
 
+ready_file = ROOT / 'tools' / 'ready.txt'
+ready = set(ready_file.read_text().split()) if ready_file.exists() else None
 checks, na = [], []
 for p in props:
     pid = p['id']
     modfile = ROOT / 'vlib' / 'checks' / f'{pid.lower()}.py'
-    if not modfile.exists() or pid in na_reasons:
+    if not modfile.exists() or pid in na_reasons or (ready is not None and pid not in ready):
         na.append({'property_id': pid, 'reason': na_reasons.get(pid, 'check not built yet (work in progress; see DESIGN.md section 4)')})
         continue
-    mod = importlib.import_module(f'vlib.checks.{pid.lower()}')
+    try:
+        mod = importlib.import_module(f'vlib.checks.{pid.lower()}')
+        _ = (mod.LEVEL, mod.RULE, mod.CASES)
+    except Exception as e:  # module not finished yet
+        print('skipping', pid, type(e).__name__, e)
+        na.append({'property_id': pid, 'reason': na_reasons.get(pid, 'check not built yet (work in progress; see DESIGN.md section 4)')})
+        continue
     checks.append({
         'property_id': pid,
         'quick_cmd': f'./check {pid} --tier quick',
